@@ -1,5 +1,5 @@
 import MlModel.Lemmas.Rates
--- import MlModel.Lemmas.ConfusionCounts
+import MlModel.Lemmas.ConfusionEncode
 /-!
 # C07 (classification family) — metric values equal their textbook definitions
 
@@ -459,5 +459,131 @@ example : Rates.precision (⟨2, 2, 1, 2⟩ : CM ℚ) = 2 / 3 ∧ Rates.f1 (⟨2
   constructor <;> norm_num [Rates.precision, Rates.f1, Rates.recall, CM.p, CM.t, safeDivide]
 
 end complement
+
+/-! ## B. the counts equal the textbook counts computed from the raw examples
+
+`denseCM axis W xs` is what `_indicator_confusion_matrix` returns for a batch whose examples have
+the dense rows `xs` (`Lemmas/ConfusionEncode`: every input encoding reduces to it example by
+example).  A *cell* is one (example, class) pair with its two booleans (true?, predicted?). -/
+
+section counts
+open MlModel.Agg.Confusion MlModel.Spec.Classification
+
+/-- **micro / binary**: `tp = |{cells : true ∧ predicted}|`, `fp = |{cells : ¬true ∧ predicted}|`, …
+over all (example, class) cells pooled -/
+theorem C07_classification_counts_micro (W : Nat) (xs : List DenseEx)
+    (h : ∀ x ∈ xs, x.1.length = x.2.length) :
+    denseCM none W xs =
+      { tp := .s (tpOf (xs.flatMap fun x => rowCells x.1 x.2)),
+        tn := .s (tnOf (xs.flatMap fun x => rowCells x.1 x.2)),
+        fp := .s (fpOf (xs.flatMap fun x => rowCells x.1 x.2)),
+        fn := .s (fnOf (xs.flatMap fun x => rowCells x.1 x.2)) } := by
+  rw [denseCM, countsOf_pooled W _ _ (rowsAligned_of xs h), pooledCells, zip_fst_snd]
+
+/-- **macro**: entry `c` of every array is the textbook count over the cells of class `c`
+(one cell per example) — the derived rate is then computed per class and averaged
+(`C07_classification_average_rule`) -/
+theorem C07_classification_counts_macro (W : Nat) (xs : List DenseEx) (hw : ∀ x ∈ xs, x.2.length = W) :
+    denseCM (some 0) W xs =
+      { tp := .v ((List.range W).map fun c => (tpOf (classCellsOf (xs.map (·.1)) (xs.map (·.2)) c) : Int)),
+        tn := .v ((List.range W).map fun c => (tnOf (classCellsOf (xs.map (·.1)) (xs.map (·.2)) c) : Int)),
+        fp := .v ((List.range W).map fun c => (fpOf (classCellsOf (xs.map (·.1)) (xs.map (·.2)) c) : Int)),
+        fn := .v ((List.range W).map fun c => (fnOf (classCellsOf (xs.map (·.1)) (xs.map (·.2)) c) : Int)) } := by
+  rw [denseCM, countsOf_perClass W _ _ (by simp)]
+  intro r hr
+  obtain ⟨x, hx, rfl⟩ := List.mem_map.mp hr
+  exact hw x hx
+
+/-- the cells of class `c` are, example by example, (is `c` true for it?, is `c` predicted for it?) -/
+theorem C07_classification_class_cells (xs : List DenseEx) (c : Nat) :
+    classCellsOf (xs.map (·.1)) (xs.map (·.2)) c
+      = xs.map fun x => (⟨x.1.getD c false, x.2.getD c false⟩ : Cell) := by
+  induction xs with
+  | nil => rfl
+  | cons x xs ih => simp_all [classCellsOf, rowCells, col]
+
+/-- **samples**: entry `i` of every array is the textbook count over the cells of example `i` -/
+theorem C07_classification_counts_samples (W : Nat) (xs : List DenseEx)
+    (h : ∀ x ∈ xs, x.1.length = x.2.length) :
+    denseCM (some 1) W xs =
+      { tp := .v (xs.map fun x => (tpOf (rowCells x.1 x.2) : Int)),
+        tn := .v (xs.map fun x => (tnOf (rowCells x.1 x.2) : Int)),
+        fp := .v (xs.map fun x => (fpOf (rowCells x.1 x.2) : Int)),
+        fn := .v (xs.map fun x => (fnOf (rowCells x.1 x.2) : Int)) } :=
+  denseCM_samples W xs h
+
+/-- what the dense rows mean, per input encoding: class `i` of the vocabulary is marked for an
+example iff it occurs among the example's labels (multiclass: the single label) -/
+theorem C07_classification_encoding_vocab (keys elems : List Label) (i : Nat) (hi : i < keys.length) :
+    (mark keys elems).getD i false = elems.contains keys[i] := by
+  simp [mark, List.getD_eq_getElem?_getD, List.getElem?_map, List.getElem?_eq_getElem hi]
+
+/-- indicator input: column `i` is marked iff the entry equals `pos_label` -/
+theorem C07_classification_encoding_indicator (pos : Label) (x : List Label × List Label) (i : Nat)
+    (hi : i < x.1.length) :
+    (encIndicator pos x).1.getD i false = (x.1[i] == pos) := by
+  simp [encIndicator, List.getD_eq_getElem?_getD, List.getElem?_map, List.getElem?_eq_getElem hi]
+
+/-- **binary input, `average = binary`** end to end:
+`tp = |{i | ŷ_i = pos ∧ y_i = pos}|`, `fp = |{i | ŷ_i = pos ∧ y_i ≠ pos}|`,
+`fn = |{i | ŷ_i ≠ pos ∧ y_i = pos}|`, `tn = |{i | ŷ_i ≠ pos ∧ y_i ≠ pos}|` -/
+theorem C07_classification_counts_binary (c : Cfg) (hk : c.kind = .cm) (hi : c.input = some .binary)
+    (ha : c.average = .binary) (xs : List (Label × Label)) :
+    batchCM c (binBatch xs) = .ok
+      { tp := .s (xs.countP fun x => x.1 == c.posLabel && x.2 == c.posLabel),
+        tn := .s (xs.countP fun x => !(x.1 == c.posLabel) && !(x.2 == c.posLabel)),
+        fp := .s (xs.countP fun x => !(x.1 == c.posLabel) && x.2 == c.posLabel),
+        fn := .s (xs.countP fun x => x.1 == c.posLabel && !(x.2 == c.posLabel)) } := by
+  rw [batchCM_binary_binary c hk hi ha, C07_classification_counts_micro 1 _ (by
+    intro x hx; obtain ⟨y, _, rfl⟩ := List.mem_map.mp hx; rfl)]
+  have e : ((xs.map (encBinary c.posLabel)).flatMap fun x => rowCells x.1 x.2)
+      = xs.map fun x => (⟨x.1 == c.posLabel, x.2 == c.posLabel⟩ : Cell) := by
+    induction xs with
+    | nil => rfl
+    | cons x xs ih => simp_all [encBinary, rowCells]
+  simp only [e, tpOf, tnOf, fpOf, fnOf, List.countP_map, Function.comp_def]
+
+/-- **multiclass input with a vocabulary, `micro`** end to end: the cells are all
+(example, class) pairs; a class is true / predicted for an example iff it is its label / its prediction -/
+theorem C07_classification_counts_multiclass_micro (keys : List Label) (hn : keys.Nodup)
+    (hne : keys ≠ []) (xs : List (Label × Label)) (hx : ∀ x ∈ xs, x.1 ∈ keys ∧ x.2 ∈ keys) :
+    multiclassCM (some keys.zipIdx) false .micro (mcBatch xs) = .ok
+      { tp := .s (tpOf (xs.flatMap fun x => keys.map fun k => ⟨k == x.1, k == x.2⟩)),
+        tn := .s (tnOf (xs.flatMap fun x => keys.map fun k => ⟨k == x.1, k == x.2⟩)),
+        fp := .s (fpOf (xs.flatMap fun x => keys.map fun k => ⟨k == x.1, k == x.2⟩)),
+        fn := .s (fnOf (xs.flatMap fun x => keys.map fun k => ⟨k == x.1, k == x.2⟩)) } := by
+  rw [multiclassCM_explicit keys hn hne .micro none rfl (by decide) xs hx,
+    C07_classification_counts_micro _ _ (by
+      intro x hx'; obtain ⟨y, _, rfl⟩ := List.mem_map.mp hx'; simp [encMulticlass, mark])]
+  have e : ((xs.map (encMulticlass keys)).flatMap fun x => rowCells x.1 x.2)
+      = xs.flatMap fun x => keys.map fun k => (⟨k == x.1, k == x.2⟩ : Cell) := by
+    induction xs with
+    | nil => rfl
+    | cons x xs ih =>
+      have := ih (fun y hy => hx y (by simp [hy]))
+      simp only [List.map_cons, List.flatMap_cons, this]
+      congr 1
+      simp [encMulticlass, mark, rowCells, List.zipWith_map_left, List.zipWith_map_right,
+        List.zipWith_self, eq_comm]
+      intro a _
+      constructor <;> simp [BEq.beq, eq_comm]
+  rw [e]
+
+/-- every count is a non-negative integer (it is the cast of a cardinality), so the range theorems
+of part A apply to every cell of every result -/
+theorem C07_classification_counts_nonneg (W : Nat) (xs : List DenseEx)
+    (h : ∀ x ∈ xs, x.1.length = x.2.length) :
+    ∃ tp tn fp fn : Nat, denseCM none W xs = { tp := .s tp, tn := .s tn, fp := .s fp, fn := .s fn } :=
+  ⟨_, _, _, _, C07_classification_counts_micro W xs h⟩
+
+/-- non-vacuity / test: the repository's own example (`tp=2, tn=2, fp=1, fn=2`) -/
+example :
+    let c : Cfg := { kind := .cm, metrics := [.PRECISION], single := true, posLabel := 1,
+                     input := some .binary, average := .binary, vocab := none, kList := [] }
+    batchCM c (binBatch [(1, 1), (1, 0), (0, 1), (0, 0), (1, 1), (0, 0), (1, 0)])
+      = .ok { tp := .s 2, tn := .s 2, fp := .s 1, fn := .s 2 } := by
+  rfl
+
+end counts
 
 end MlModel.C07
